@@ -78,6 +78,9 @@ def build(ctx, rng, n, with_refund):
     c.pks = [sigmsg.pubkey(s) for s in c.seeds]
     from ..gen import auth as _auth
     c.fields = [_auth.sigfields(rng) for i in range(n)]
+    # the builders' sigflags argument selects the message on both sides
+    c.flag = rng.choice((0, 0, 0, 0x10, 0xa0, 0x82, 0x40))
+    c.fhex = f'{c.flag:02x}'
     c.refund = {}
     c.refund_seeds = {}
     if with_refund:
@@ -95,23 +98,23 @@ def build(ctx, rng, n, with_refund):
         if hist == 'longer':
             extra = [sigmsg.pubkey(rbytes(rng, 32))
                      for _ in range(rng.randrange(1, 4))]
-            tools.setup_amhl(c.seed, list(c.pks) + extra, '00')
+            tools.setup_amhl(c.seed, list(c.pks) + extra, c.fhex)
         elif hist == 'shorter' and n > 2:
-            tools.setup_amhl(c.seed, list(c.pks[:n - 1]), '00')
+            tools.setup_amhl(c.seed, list(c.pks[:n - 1]), c.fhex)
         elif hist == 'samples':
             AMHL.samples(n + 3, c.seed)
             AMHL.setup(n + 2, c.seed)
     except BaseException:
         pass
-    c.res = tools.setup_amhl(c.seed, list(c.pks), '00',
+    c.res = tools.setup_amhl(c.seed, list(c.pks), c.fhex,
                              refund_pubkeys=c.refund or None)
     c.setup = AMHL.setup(n, c.seed)
     c.AMHL = AMHL
     c.T = [c.res[pk][2] for pk in c.pks]
     c.y = [c.res[pk][3] for pk in c.pks]
     c.key = c.res['key']
-    c.wits = [tools.make_adapter_witness(c.seeds[i], c.T[i], c.fields[i], '00')
-              for i in range(n)]
+    c.wits = [tools.make_adapter_witness(c.seeds[i], c.T[i], c.fields[i],
+                                         c.fhex) for i in range(n)]
     # model: cumulative scalars
     acc = 0
     c.K = []
@@ -124,6 +127,8 @@ def build(ctx, rng, n, with_refund):
 def lock2_ok(c, i, sig):
     """does `sig` satisfy hop i's signature lock?"""
     lock2 = c.res[c.pks[i]][1]
+    flag = getattr(c, 'flag', 0)
+    sig = sig + (bytes([flag]) if flag else b'')
     if c.pks[i] in c.refund:
         return auth([isa.push(sig) + isa.op('TRUE'), lock2], c.fields[i]) \
             is True
@@ -227,7 +232,8 @@ def judge_cascade(ctx, c, case, other_chain):
                           'does not decrypt the adapter into a signature '
                           'satisfying the hop\'s lock', case)
             return False
-        if not E.verify(c.pks[h], sigmsg.message(c.fields[h], 0), sig):
+        if not E.verify(c.pks[h], sigmsg.message(c.fields[h],
+                                                 getattr(c, 'flag', 0)), sig):
             ctx.violation('cascade-signature-invalid', f'hop {h}: decrypted '
                           'signature fails RFC 8032 verification', case)
             return False
